@@ -302,13 +302,36 @@ def applied_slots(fn, slots):
     return sorted(out)
 
 
+def per_sample_reachable(cls):
+    """methods reachable (through `self.<m>(...)` calls) from the per-sample accessors getitem_* — the only place a C08 seed site lives;
+    generators built at construction time (shuffle / few-shot / label wrappers) are not per-sample seed sites"""
+    bodies = {}
+    for c, node in reversed(mro_with_source(cls)):
+        if not c.__module__.startswith("kappadata"):
+            continue
+        for fn in node.body:
+            if isinstance(fn, ast.FunctionDef):
+                bodies[fn.name] = fn
+    seen, todo = set(), [n for n in bodies if n.startswith("getitem_")]
+    while todo:
+        m = todo.pop()
+        if m in seen or m not in bodies:
+            continue
+        seen.add(m)
+        for n in ast.walk(bodies[m]):
+            if isinstance(n, ast.Call) and is_self_attr(n.func):
+                todo.append(n.func.attr)
+    return seen
+
+
 def seed_site(cls, slots):
     """finds the per-sample method that creates default_rng; returns dict or None"""
+    reach = per_sample_reachable(cls)
     for c, node in mro_with_source(cls):
         if not c.__module__.startswith("kappadata"):
             continue
         for fn in node.body:
-            if not isinstance(fn, ast.FunctionDef) or fn.name == "__init__":
+            if not isinstance(fn, ast.FunctionDef) or fn.name == "__init__" or fn.name not in reach:
                 continue
             calls = [n for n in ast.walk(fn) if isinstance(n, ast.Call) and ast.unparse(n.func).endswith("default_rng")]
             if not calls:
